@@ -43,6 +43,19 @@ CHECKS = {
              "ECB of the specified counter block. Limits of counter_len >= 4, GCM's 2^39-256 bytes are not reached by volume; HPKE nonces are under C15.",
         technique="TLA+ implementation-shaped counter models checked exhaustively by TLC; spec->code replay across the real limits; code->spec trace validation in TLC",
     ),
+    "C15": dict(
+        category="model_checking",
+        text="sys/HpkeChannel (sender, receiver, adversary; ideal AEAD) is model-checked exhaustively: the receiver outputs the genuine plaintexts in order "
+             "and once, a rejected message leaves the sequence number unchanged so the next genuine one opens, nonces are pairwise distinct, nothing is sealed "
+             "at the limit, nothing opens under a different set-up; the increment-before-result variant is shown to violate it. TLC-generated histories "
+             "(replay, reorder, corrupt, truncate, extend, other AAD) are replayed on real contexts of 5 KEMs x 3 AEADs x 4 modes with matching and "
+             "mismatching receivers; TLC judges every call (exception class, plaintext, projected sequence number) and, for the HKDF-SHA256 suites, recomputes "
+             "kem_context, key schedule, per-message nonces and ciphertexts from RFC 9180 transcribed in TLA+ and uses the exact AEAD verdict. Set-up refusals are judged by rule.",
+        design_ref="DESIGN.md section 6, C15",
+        note="Trusted: TLC; HpkeData/HpkeSha256/AesAead/ChaChaPoly transcriptions (pinned by RFC 9180 A.1.1, FIPS 180-4, RFC 4231 and the AEAD vectors). The DH output is "
+             "taken from the trace (C06). For SHA-384/512 suites only channel behaviour is judged, under the ideal-AEAD assumption.",
+        technique="TLA+ channel model checked exhaustively by TLC; spec->code replay of adversarial histories; code->spec trace validation with RFC 9180 transcribed in TLA+",
+    ),
 }
 
 NOT_APPLICABLE = {
